@@ -677,7 +677,7 @@ func init() {
 	core.Register(&core.Check{
 		ID:          "C14",
 		Level:       "exploration",
-		Rule:        "global environments enumerated exhaustively over a value/function universe; each is built through the evaluator, saved with State.SaveGlobals, written to ./.gr in a scratch directory and reloaded into fresh states by the real repl.AutoLoad (one line at a time) and by load() (whole file). Oracle: every saved data global has an equal type-tagged dump after reload; every function global gives identical output/value/error on a 6-call probe set; the number of lines equals the number of bindings written, no empty line; saving the reloaded state yields byte-identical text; values over MaxValueLen are absent (not truncated) and the rest complete. An environment that cannot be built (definition fails) is not a case. Non-trivial = cases; distinct by definitions + limit. Session histories: a defining session then every sequence of <=2 (thorough 3) sessions each doing one of 21 updates (direct, through functions, index/dot assignment, ++, del, redefinition) between the real repl.AutoLoad and repl.AutoSave, at default and debug log level: the final reload equals the state of one uninterrupted session.",
+		Rule:        "global environments enumerated exhaustively over a value/function universe; each is built through the evaluator, saved with State.SaveGlobals, written to ./.gr in a scratch directory and reloaded into fresh states by the real repl.AutoLoad (one line at a time) and by load() (whole file). Oracle: every saved data global has an equal type-tagged dump after reload; every function global gives identical output/value/error on a 6-call probe set; the number of lines equals the number of bindings written, no empty line; saving the reloaded state yields byte-identical text; values over MaxValueLen are absent (not truncated) and the rest complete. An environment that cannot be built (definition fails) is not a case. Non-trivial = cases; distinct by definitions + limit. Session histories: a defining session then every sequence of <=2 (thorough 3) sessions each doing one of 21 updates (direct, through functions, index/dot assignment, ++, del, redefinition) between the real repl.AutoLoad and repl.AutoSave, at default and debug log level: the final reload equals the state of one uninterrupted session. Round 7: in a child process with unrestricted IO, every sequence of <=3 sessions over 14 actions including explicit saves to another directory's .gr, to ./.gr and to another file, alone and right after an update in the same session.",
 		Assume:      []string{"functions are compared on a probe set of 6 argument lists, not on every argument"},
 		QuickCap:    100 * time.Second,
 		ThoroughCap: 20 * time.Minute,
